@@ -202,7 +202,7 @@ def impl_scan(s):
 
 
 def run_scan_cases(ctx, streams, tag):
-    lines = ['scan ' + (s.hex() or '-') for (s, _) in streams]
+    lines = ['fscan ' + (s.hex() or '-') for (s, _) in streams]
     mouts = lib.run_model_sharded(lines)
     for (s, expect), line, mo in zip(streams, lines, mouts):
         io = impl_scan(s)
